@@ -41,7 +41,16 @@ impl embedded_hal::serial::Write<u8> for UsartDev {
             Some(_) => Err(nb::Error::Other(())),
         }
     }
-    fn flush(&mut self) -> nb::Result<(), ()> { Ok(()) }
+    // a flush is answered from the same script as the writes (0 done, 1 would-block, other = error); the shipping sender never flushes
+    fn flush(&mut self) -> nb::Result<(), ()> {
+        let mut s = self.0.borrow_mut();
+        match s.ans.pop_front() {
+            None => if s.accept_all { Ok(()) } else { spin(&mut s.spins); Err(nb::Error::WouldBlock) },
+            Some(0) => Ok(()),
+            Some(1) => Err(nb::Error::WouldBlock),
+            Some(_) => Err(nb::Error::Other(())),
+        }
+    }
 }
 
 // ---------- CAN (hook: ross_protocol::interface::can::verif_sim::Instance) ----------
